@@ -85,9 +85,28 @@ def single_instruction_modules(g, rng, lay, tier):
             yield "single %s instruction in a block" % family, decls + ["36/1/2/E4.0,R3", "f8/-/4/-", inst, "fd/-/-/-", "38/-/-/-"], False
 
 
-def tracker_unstable(rp, insts, sorted_insts):
-    """known class F14: literal widths differ between the input order and the layout order"""
-    return False
+def tracker_unstable(rp, flat, hdr_words):
+    """known class F14: the context-dependent literal widths differ between the input order and the
+    layout order - i.e. re-parsing the instructions in layout order does not give them back"""
+    words = list(hdr_words) + [w for t in flat for w in sg.spec_encode(t)]
+    ref = rp.parse_stream(b"".join(w.to_bytes(4, "little") for w in words))
+    return (not ref["accepted"]) or ref["insts"] != flat
+
+
+def late_type_modules(rng, tier):
+    """F14 family: a 64-bit (or unsupported-width) type declared AFTER an instruction whose result
+    type it is, with a later literal depending on that value (ill-formed, but the loader accepts it)"""
+    n = 12 if tier == "thorough" else 4
+    for k in range(n):
+        w = rng.choice([0x40, 0x40, 0x80, 0x18])
+        ty = rng.choice(["15/-/2/L%x,L0" % w, "16/-/2/L%x" % (w if w != 0x18 else 0x40)])
+        sel = rng.choice(["1/2/5/-", "37/2/5/-"]) if k % 2 else "1/2/5/-"
+        f1 = ["36/1/a/E4.0,R3"] + ([sel, "f8/-/b/-"] if sel.startswith("37") else ["f8/-/b/-", sel]) + ["fd/-/-/-", "38/-/-/-"]
+        lit = "L%x" % rng.randrange(1 << 32)
+        f2 = ["36/1/c/E4.0,R3", "f8/-/d/-", "fb/-/-/R5,Rd,%s,Rd" % lit, "38/-/-/-"]
+        yield "type declared after the value it types (F14 family)", f1 + [ty] + f2, False
+        # constant before its type, type arrives later in the same section: order is kept, stable
+        yield "constant before its type in the same section", ["2b/2/9/%s" % lit, ty], False
 
 
 def run(rep):
@@ -106,6 +125,7 @@ def run(rep):
         broken.insert(0, {"lemma": "rs2coq recogniser (T-src loader arms)", "error": "\n".join(lf[:20])})
     ok, info = pipeline.proof_stage(rep, PROP, broken)
     bad = []
+    known_f14 = []
     if p.exe:
         mexe, merr = corr.build_modelrun()
         g = sg.Grammar()
@@ -116,7 +136,7 @@ def run(rep):
         mg = modgen.ModGen(g, rng)
         lines, meta = [], []
         import itertools
-        for desc, insts, gp in itertools.chain(variants(mg, rng, rep.tier), single_instruction_modules(g, rng, lay, rep.tier)):
+        for desc, insts, gp in itertools.chain(late_type_modules(rng, rep.tier), variants(mg, rng, rep.tier), single_instruction_modules(g, rng, lay, rep.tier)):
             bound = rng.choice([0, 1, 1000, 0xFFFFFFFF])
             version = rng.choice([0x00010000, 0x00010600, 0xAB0103CD])
             words = encode_stream(insts, rng, gp, bound=bound, version=version)
@@ -163,11 +183,20 @@ def run(rep):
                     bad.append({"module": insts, "what": "%s: assemble(load(B)) is not header' + the input's instructions in layout order" % desc, "observed": awords[:600], "expected": want_a[:600], "stream": data.hex()})
                 elif desc.startswith("layout order") and flat != ref["insts"]:
                     bad.append({"module": insts, "what": "input already in layout order is reordered", "stream": data.hex()})
+                elif reload_ != "true" and tracker_unstable(rp, flat, want_words[:5]):
+                    known_f14.append({"stream": data.hex(), "reload": reload_})
                 elif reload_ != "true":
                     bad.append({"module": insts, "what": "%s: loading the assembled output again gives a different module (%s)" % (desc, reload_), "stream": data.hex()})
                 elif lw not in ("true", "n/a"):
                     bad.append({"module": insts, "what": "%s: load_words disagrees with load_bytes (%s)" % (desc, lw), "stream": data.hex()})
             bad.sort(key=lambda b: len(b["stream"]))
+            if known_f14:
+                ents = [e for e in core.load_known().get("open", []) if e["property"] == PROP and e.get("class", {}).get("tracker_unstable")]
+                if ents:
+                    rep.known("%s %s (%d input(s) of the class in this run, e.g. %s)" % (ents[0]["id"], ents[0]["what"][:160], len(known_f14), known_f14[0]["stream"][:80]))
+                else:
+                    for kf in known_f14[:2]:
+                        bad.append({"module": [], "what": "loading the assembled output again gives a different module (%s): literal widths depend on the order of declarations" % kf["reload"], "stream": kf["stream"]})
     pipeline.conclude(rep, ok, info, bad, lambda b: b["what"], limit=3)
 
 
